@@ -61,7 +61,9 @@ class FLPEnv(RL4COEnvBase):
         chosen = td["chosen"].clone()  # (batch_size, n_locations)
         n_points_ = chosen.shape[-1]
 
-        chosen[torch.arange(batch_size).to(td.device), selected] = True
+        # an instance that has its quota keeps being stepped while batch-mates are running: it selects nothing more
+        still_choosing = ~td["done"].reshape(batch_size)
+        chosen[torch.arange(batch_size).to(td.device), selected] |= still_choosing
 
         # We are done if we choose enough locations
         done = td["i"] >= (td["to_choose"] - 1)
@@ -72,13 +74,9 @@ class FLPEnv(RL4COEnvBase):
         # Update distances
         orig_distances = td["orig_distances"]  # (batch_size, n_points, n_points)
 
+        # distance to the nearest chosen location (instances may have chosen different numbers of locations)
         cur_min_dist = (
-            gather_by_index(
-                orig_distances, chosen.nonzero(as_tuple=True)[1].view(batch_size, -1)
-            )
-            .view(batch_size, -1, n_points_)
-            .min(dim=1)
-            .values
+            orig_distances.masked_fill(~chosen.unsqueeze(-1), float("inf")).min(dim=1).values
         )
 
         # We cannot choose the already-chosen locations
@@ -137,10 +135,7 @@ class FLPEnv(RL4COEnvBase):
         n_points_ = td["chosen"].shape[-1]
         orig_distances = td["orig_distances"]
         cur_min_dist = (
-            gather_by_index(
-                orig_distances, chosen.nonzero(as_tuple=True)[1].view(batch_size_, -1)
-            )
-            .view(batch_size_, -1, n_points_)
+            orig_distances.masked_fill(~chosen.unsqueeze(-1), float("inf"))
             .min(1)
             .values.sum(-1)
         )
